@@ -8,7 +8,7 @@ MODULE = "Poupool.Properties.C07"
 
 def run(chk):
     ac.run_actor_property(chk, MODULE, THEOREMS, monitor_pids=["C07"], extra=globals().get("extra"))
-    ac.dispatch_facts(chk, ['C14_fact_methods', 'C14_fact_backwash_period', 'C14_fact_backwash_duration', 'C14_fact_rinse_duration'])
+    ac.dispatch_facts(chk, ['C14_fact_routing', 'C14_fact_backwash_period', 'C14_fact_backwash_duration', 'C14_fact_rinse_duration'])
     ac.timing_theorems(chk, TIMING)
 
 
